@@ -62,7 +62,7 @@ func containsAll(have []string, req ...string) (bool, string) {
 // mintRole classifies a function holding a MintCoins site.
 func (c *Ctx) mintRole(f *ssa.Function, m Eff) string {
 	effs := c.Effects(f)
-	l := c.P.Leaves(m.Bank.Coins, amountOpt)
+	l := c.EL(m, m.Bank.Coins, amountOpt)
 	af := amountFields(l)
 	switch {
 	case hasEff(effs, "store", "Delete", "SendToExternalKey"):
@@ -94,8 +94,12 @@ func checkC01(c *Ctx) {
 			case "MintCoins":
 				role := c.mintRole(f, e)
 				mints = append(mints, mintSite{f, e, role})
+				if role == "" && c.RegisterHelper(f) {
+					// a private helper of one caller: its mint is classified with that caller on the next pass
+					continue
+				}
 				if role == "" {
-					r.Bad("C01.mint-sites", "mint:"+fname(f), c.pos(e.At), "MintCoins in a function that is neither deposit, refund, execution payout nor cold-storage proposal: "+strings.Join(p.Leaves(e.Bank.Coins, amountOpt).List(), ","))
+					r.Bad("C01.mint-sites", "mint:"+fname(f), c.pos(e.At), "MintCoins in a function that is neither deposit, refund, execution payout nor cold-storage proposal: "+strings.Join(c.EL(e, e.Bank.Coins, amountOpt).List(), ","))
 				} else if role == "cold-storage" && !c.onlyFrom(f, roots.Gov) {
 					r.Bad("C01.mint-sites", "mint:"+fname(f), c.pos(e.At), "the cold-storage mint is reachable from code other than the governance proposal handler")
 				} else {
@@ -117,7 +121,7 @@ func checkC01(c *Ctx) {
 		if m.role != "deposit" {
 			continue
 		}
-		l := p.Leaves(m.e.Bank.Coins, amountOpt)
+		l := c.EL(m.e, m.e.Bank.Coins, amountOpt)
 		af := amountFields(l)
 		ok, extra := subsetOf(af, "SendToHubEvent.Amount")
 		has, _ := containsAll(af, "SendToHubEvent.Amount")
@@ -128,10 +132,10 @@ func checkC01(c *Ctx) {
 		// the same coins are what is sent to the receiver
 		for _, e := range c.Effects(m.f) {
 			if e.Kind == "bank" && e.Op == "SendCoinsFromModuleToAccount" && e.In == m.e.In {
-				if sameObject(e.Bank.Coins, m.e.Bank.Coins) || e.Bank.Coins == m.e.Bank.Coins {
+				if sameCoins(e, e.Bank.Coins, m.e, m.e.Bank.Coins) {
 					r.Ok("C01.deposit-amount", "credit:"+fname(m.f), c.pos(e.At), "the minted coins are the coins credited")
 				} else {
-					ls := p.Leaves(e.Bank.Coins, amountOpt)
+					ls := c.EL(e, e.Bank.Coins, amountOpt)
 					okc, ex := subsetOf(amountFields(ls), "SendToHubEvent.Amount")
 					r.Check(okc, "C01.deposit-amount", "credit:"+fname(m.f), c.pos(e.At), "credited coins derive from SendToHubEvent.Amount", "credited coins derive from "+ex)
 				}
@@ -268,8 +272,8 @@ func (c *Ctx) checkPoolInsert(f *ssa.Function, effs []Eff) {
 	r.Check(g1 && g2 && g3, "C01.burn-then-record", "order:"+fname(f), c.pos(setE.At), "entry recorded only after the sender's coins were taken (err==nil) and burnt",
 		sprintf("pool entry recorded without take-success/burn ordering (record guarded=%v, burn guarded=%v, burn precedes=%v)", g1, g2, g3))
 	// same value taken and burnt; its leaves are the three coin parameters
-	same := takeE.Bank.Coins == burnE.Bank.Coins || sameObject(takeE.Bank.Coins, burnE.Bank.Coins)
-	lb := p.Leaves(burnE.Bank.Coins, amountOpt)
+	same := sameCoins(*takeE, takeE.Bank.Coins, *burnE, burnE.Bank.Coins)
+	lb := c.EL(*burnE, burnE.Bank.Coins, amountOpt)
 	var coinParams []string
 	for _, l := range lb.List() {
 		if strings.HasPrefix(l, "param:") {
@@ -334,8 +338,8 @@ func (c *Ctx) checkPoolInsert(f *ssa.Function, effs []Eff) {
 
 // checkRefundAmount: the refund mints Token+Fee+ValCommission of the entry, converted.
 func (c *Ctx) checkRefundAmount(rule string, f *ssa.Function, m Eff) {
-	p, r := c.P, c.R
-	l := p.Leaves(m.Bank.Coins, amountOpt)
+	r := c.R
+	l := c.EL(m, m.Bank.Coins, amountOpt)
 	af := amountFields(l)
 	var amt []string
 	for _, x := range af {
@@ -353,7 +357,7 @@ func (c *Ctx) checkRefundAmount(rule string, f *ssa.Function, m Eff) {
 	// every bank send after the mint moves the same coins
 	for _, e := range c.Effects(f) {
 		if e.Kind == "bank" && e.Op == "SendCoinsFromModuleToAccount" && e.In == f {
-			ok := e.Bank.Coins == m.Bank.Coins || sameObject(e.Bank.Coins, m.Bank.Coins)
+			ok := sameCoins(e, e.Bank.Coins, m, m.Bank.Coins)
 			r.Check(ok, rule, "paid:"+fname(f), c.pos(e.At), "the coins paid out are the coins minted", "the coins paid out after the refund mint are not the minted coins")
 		}
 	}
@@ -430,14 +434,14 @@ func (c *Ctx) checkEventAtomic(rule string, f *ssa.Function) {
 
 // checkPayouts: the execution payouts.
 func (c *Ctx) checkPayouts(pay []mintSite) {
-	p, r := c.P, c.R
+	r := c.R
 	if len(pay) == 0 {
 		r.Undecided("C01.payout-amount", "role", "-", "no execution payout mint found")
 		return
 	}
 	allowed := []string{"SendToExternal.Fee.Amount", "SendToExternal.ValCommission.Amount", "BatchTx.Transactions"}
 	for _, s := range pay {
-		l := p.Leaves(s.e.Bank.Coins, amountOpt)
+		l := c.EL(s.e, s.e.Bank.Coins, amountOpt)
 		var amt []string
 		for _, x := range amountFields(l) {
 			if strings.HasSuffix(x, ".Amount") {
